@@ -31,6 +31,11 @@ class StaticPlacementPass(BasePass):
     ) -> list[int]:
         """Recursively find a monomorphic subgraph."""
         if current_index == num_logical_qudits:
+            # Qudits that interact with nobody are not constrained by the
+            # edges; only accept placements that are connected as a whole.
+            subgraph = physical_graph.get_subgraph(current_placement)
+            if not subgraph.is_fully_connected():
+                return []
             return current_placement
 
         if time.time() > time_limit:
